@@ -19,7 +19,7 @@ StepAction ==
     LET a == last'.a  o == last'.o  p == last'.pre IN
     a.a # "none" =>
         \* the reply lists exactly the current tree; only subscribers are notified, once, about exactly that entity
-        /\ (a.a = "read" => o.reply.ents = AddedEnts(p) /\ o.reply.feats = Announced(p))
+        /\ (a.a = "read" => o.reply.ents = AddedEnts(p) /\ o.reply.feats = {Strip(f) : f \in Announced(p)})
         /\ \A q \in Peers \ Subscribers : o.notes[q] = {}
         /\ \A q \in Subscribers : Cardinality(o.notes[q]) <= 1 /\ \A n \in o.notes[q] : n.e = a.e
         /\ (a.a \in {"addent", "rement"} /\ o.ret = "ok") => \A q \in Subscribers : Cardinality(o.notes[q]) = 1
